@@ -72,6 +72,7 @@ def write_pretree_lens(bw, rng, newlens, oldlens, first, last):
         elif s==19:
             bw.bits(e,1); c2,l2=pc[z]; bw.bits(c2,l2)
 
+STATS={'pad16':0}
 def encode(rng, wbits, total, delta=False, ref=b'', e8=False, reset_interval=0, cuts=None, match_p=0.5, early=False, btypes=None, first_match=None):
     """first_match=(offset, length): the first token of the stream is this match (LZX DELTA: it starts in the reference data).
     returns (stream bytes, plaintext before E8 postprocessing is irrelevant: we only diff decoders)"""
@@ -156,6 +157,7 @@ def encode(rng, wbits, total, delta=False, ref=b'', e8=False, reset_interval=0, 
             bsize=p-pos  # may be shorter/equal
         bw.bits(btype,3); bw.bits(bsize>>8,16); bw.bits(bsize&255,8)
         if btype==3:
+            if bw.n==0: STATS['pad16']+=1        # (the block header ended on a word boundary: a whole word of padding follows)
             bw.bits(0,16-bw.n if bw.n else 16)   # 1..16 bits of padding
             import struct
             R=[rng.choice([1,2,5,100]) for _ in range(3)]
